@@ -143,7 +143,17 @@ pub struct Parser {
     pub parse_string: String,
     pub macro_dcs: String,
     pub bs_is_ctrl_char: bool,
+
+    /// nesting level of the macro invocation in progress
+    macro_depth: usize,
+    /// characters the outermost macro invocation may still replay
+    macro_chars_left: usize,
 }
+
+/// A macro may invoke macros, but only this deep ...
+const MAX_MACRO_DEPTH: usize = 16;
+/// ... and one invocation replays at most this many characters in total.
+const MAX_MACRO_EXPANSION: usize = 65536;
 
 impl Default for Parser {
     fn default() -> Self {
@@ -165,6 +175,8 @@ impl Default for Parser {
             last_char: '\0',
             hyper_links: Vec::new(),
             bs_is_ctrl_char: false,
+            macro_depth: 0,
+            macro_chars_left: 0,
         }
     }
 }
@@ -1460,11 +1472,24 @@ impl Parser {
         } else {
             return;
         };
+        if self.macro_depth == 0 {
+            self.macro_chars_left = MAX_MACRO_EXPANSION;
+        }
+        if self.macro_depth >= MAX_MACRO_DEPTH {
+            log::error!("Macro invocation nested too deeply, ignoring macro {}", id);
+            return;
+        }
+        self.macro_depth += 1;
         for ch in m.chars() {
+            if self.macro_chars_left == 0 {
+                break;
+            }
+            self.macro_chars_left -= 1;
             if let Err(err) = self.print_char(buf, current_layer, caret, ch) {
                 log::error!("Error during macro invocation: {}", err);
             }
         }
+        self.macro_depth -= 1;
     }
 
     fn execute_aps_command(&self, _buf: &mut Buffer, _caret: &mut Caret) {
